@@ -151,3 +151,13 @@ def bound_name(fn_node: ast.AST, value: ast.AST) -> str | None:
         if isinstance(n, ast.AnnAssign) and n.value is value and isinstance(n.target, ast.Name):
             return n.target.id
     return None
+
+
+def call_arg(c: ast.Call, pos: int, name: str) -> ast.expr | None:
+    """The expression a call passes for the parameter at position `pos` / named `name` (None if absent)."""
+    if len(c.args) > pos and not any(isinstance(a, ast.Starred) for a in c.args[: pos + 1]):
+        return c.args[pos]
+    for k in c.keywords:
+        if k.arg == name:
+            return k.value
+    return None
